@@ -63,6 +63,8 @@ def k9_tool_reads(prog, ctx):
     try:
         from rules import C19 as _C19
         _C19.u4b_every_read_with_the_options(prog, ctx, rule="K9")
+        # ... and the comment set the user names on the command line is the one the tool uses (--comment is an option of its own, = C19.U13)
+        _C19.u13_option_table(prog, ctx, rule="K9")
     except Inconclusive as e:
         ctx.inconclusive("K9", "the tool reads with the comment set it was given", "", str(e))
 
